@@ -920,9 +920,12 @@ def run(ctx):
                  len(ctl_used), 'all of the table' if not missing else 'missing %s' % sorted(missing), len(mach), stats['drift']))
     env_jobs = [(j, o) for j, o in zip(jobs, outs) if j.get('env')]
     count = lambda pred: sum(1 for j, o in env_jobs for lab, st in j['steps'][:o['steps']] if pred(j, lab, st))
-    ctx.note('environment walks: %d walks / %d steps on %s; sends after a read that ended in TIMEOUT (timeout 0 / 0.05 s; expect([TIMEOUT, ..]) '
-             'and read_nonblocking) or EOF or a match (timeout 30 / None / default): %d, of them larger than the transport buffers (20 kB - 4 MB, '
-             'the peer reads only once the sender\'s buffer is full): %d; sends to a peer that shut its output side down and keeps reading '
+    after_read = lambda big: sum(1 for j, o in env_jobs if j['env'] == 'life' for k in range(1, o['steps'])
+                                 if j['steps'][k][0].split('(')[0] in SEND_OPS and j['steps'][k][1]['link'] == 'up' and j['steps'][k][1]['peerOpen']
+                                 and j['steps'][k - 1][0].split('(')[0] in ('ReadTimeout', 'HalfCloseEof', 'ReadDelivered') and (not big or 'big' in j['steps'][k][0]))
+    ctx.note('environment walks: %d walks / %d steps on %s; sends to a reading peer %d (larger than the transport buffers, 20 kB - 4 MB, the '
+             'peer of a socket reading only once the sender\'s buffer is full: %d), of them directly after a read that ended in TIMEOUT (timeout '
+             '0 / 0.05 s; expect([TIMEOUT, ..]) and read_nonblocking) or EOF or a match (timeout 30 / None / default): %d (large: %d); sends to a peer that shut its output side down and keeps reading '
              '(socket shutdown(SHUT_WR); Popen child pointing fd 1+2 at /dev/null, reader thread joined): %d; sends that the environment '
              'makes fail: peer gone %d, object closed / sendeof() %d, peer not reading + user timeout on a socket (part of the payload '
              'delivered) %d; awaited reads %d, awaited calls cancelled by task.cancel() / asyncio.wait_for %d, timed out %d, output arriving '
@@ -930,6 +933,7 @@ def run(ctx):
                  len(env_jobs), sum(o['steps'] for j, o in env_jobs), ', '.join(sorted(set(o['kind'] for j, o in env_jobs if o['kind']))),
                  count(lambda j, l, st: j['env'] == 'life' and l.split('(')[0] in SEND_OPS and st['link'] == 'up' and st['peerOpen']),
                  count(lambda j, l, st: j['env'] == 'life' and l.split('(')[0] in SEND_OPS and st['link'] == 'up' and st['peerOpen'] and 'big' in l),
+                 after_read(False), after_read(True),
                  count(lambda j, l, st: l.split('(')[0] in SEND_OPS and st['link'] == 'up' and not st['outOpen']),
                  count(lambda j, l, st: l.split('(')[0] in SEND_OPS and st['link'] == 'gone'),
                  count(lambda j, l, st: l.split('(')[0] in SEND_OPS and (st['link'] == 'closed' or not st['peerOpen'])),
